@@ -128,6 +128,23 @@ def template(tid):
         v = f.createVariable('x', 'd', ('x',))
         v[...] = [1, 2, 3]
         f.setCoords(['x'])
+    elif tid == 'T7':
+        # a genuinely four-dimensional variable (zipped selections on
+        # non-adjacent axes, multi-axis reductions)
+        f.createDimension('t', 2).setunlimited(True)
+        f.createDimension('z', 3)
+        f.createDimension('y', 2)
+        f.createDimension('x', 3)
+        v = f.createVariable('F', 'f', ('t', 'z', 'y', 'x'), fill_value=-9.)
+        m = np.zeros((2, 3, 2, 3), bool)
+        m[0, 1, 0, 2] = m[1, 2, 1, 0] = m[1, 0, 0, 0] = True
+        v[...] = np.ma.masked_array(_tok((2, 3, 2, 3), 700, 'f'), mask=m)
+        v.units = 'w'
+        v = f.createVariable('G', 'i', ('z', 'x'))
+        v[...] = _tok((3, 3), 760, 'i')
+        v = f.createVariable('z', 'f', ('z',))
+        v[...] = [1, 2, 4]
+        f.setCoords(['z'])
     elif tid == 'M1':
         # the template of the bounded model spec/PncCore_MC.tla (M1)
         f.createDimension('t', 2).setunlimited(True)
